@@ -39,7 +39,7 @@ func init() {
 		Level: "exploration",
 		Modes: []Mode{{Name: "stream", Weight: 5}, {Name: "cut", Weight: 4}, {Name: "silence", Weight: 2}},
 		Gen:   genC11, Run: runC11, Enum: enumC11, Fixed: fixedC11,
-		QuickRuns: 4000, ThoroughRuns: 50000,
+		QuickRuns: 4000, ThoroughRuns: 400000,
 		Rule: "plan = (1..8 frames with lengths from {0,1,2,124..127,65534..65537,70000, random}, text/binary, network chunking/latency, sender pauses, cut offset | announced length and limit) from VERIF_SEED, " +
 			"plus a fixed sweep of single frames of every boundary length x {text, binary}; non-trivial = at least one frame was delivered in more than one chunk (stream/cut) / the header was fully read (silence); distinct = distinct (length vector, chunking) x history digest",
 		Assumptions: []string{
